@@ -438,6 +438,7 @@ def diff_function(ref_fn, cur_fn):
                 bind_changes.setdefault(next(iter(rb - cb)), set()).add(next(iter(cb - rb)))
         ref_all = {n.id for n in ast.walk(ref_fn) if isinstance(n, ast.Name)} | {a.arg for a in ast.walk(ref_fn) if isinstance(a, ast.arg)}
         cur_all = {n.id for n in ast.walk(cur_fn) if isinstance(n, ast.Name)} | {a.arg for a in ast.walk(cur_fn) if isinstance(a, ast.arg)}
+        cur_bound = {x.id for x in ast.walk(cur_fn) if isinstance(x, ast.Name) and isinstance(x.ctx, ast.Store)}
         for f in ren:
             # description: variable X replaced by Y
             parts = f[1].split()
@@ -445,6 +446,10 @@ def diff_function(ref_fn, cur_fn):
                 f[0] = 'different'
             elif len(parts) >= 5 and parts[1] not in cur_all and parts[4] not in ref_all:
                 f[0] = 'different'      # X no longer exists and Y is new: X was renamed to Y throughout the function
+            elif len(parts) >= 5 and parts[4] not in ref_all and parts[4] in cur_bound:
+                # Y is a local the reference function does not have at all: it needs its own definition(s), so this is a
+                # multi-statement rewrite (a reused variable split into two), not a one-token mutation
+                f[0] = 'different'
     # guard 2: possibly compensating mutations (one binds what the other reads)
     muts = [f for f in findings if f[0] == 'mutation']
     if len(muts) > 1:
